@@ -2,6 +2,8 @@ import HH.Machine
 import HH.Proofs.Codec
 import HH.Proofs.SseRefine
 import HH.Proofs.AvxRefine
+import HH.Proofs.NeonRefine
+import HH.Proofs.WasmRefine
 /-!
 # Every back end refines one abstract machine
 
@@ -29,14 +31,18 @@ def abs : Hasher → St × List (BitVec 8)
   | portable s => absP (s.st, s.buffer)
   | sse s => Sse.abs s
   | avx s => Avx.abs s
+  | neon s => NeonB.abs s
+  | wasm s => WasmB.abs s
 
 def Inv : Hasher → Prop
   | portable s => s.buffer.Inv
   | sse s => s.buffer.Inv
   | avx s => s.buffer.Inv
+  | neon s => s.buffer.Inv
+  | wasm s => s.buffer.Inv
 
 theorem abs_pending_lt (h : Hasher) (hi : h.Inv) : h.abs.2.length < 32 := by
-  cases h <;> simp only [abs, absP, Sse.abs, Avx.abs, Pkt.asSlice, Inv, Pkt.Inv] at * <;>
+  cases h <;> simp only [abs, absP, Sse.abs, Avx.abs, NeonB.abs, WasmB.abs, Pkt.asSlice, Inv, Pkt.Inv] at * <;>
     (simp only [List.length_take]; omega)
 
 theorem append_abs (h : Hasher) (d : List (BitVec 8)) (hi : h.Inv) :
@@ -45,6 +51,8 @@ theorem append_abs (h : Hasher) (d : List (BitVec 8)) (hi : h.Inv) :
   | portable s => exact appendG_abs P.updPacket (s.st, s.buffer) d hi
   | sse s => exact Sse.append_abs s d hi
   | avx s => exact Avx.append_abs s d hi
+  | neon s => exact NeonB.append_abs s d hi
+  | wasm s => exact WasmB.append_abs s d hi
 
 theorem finalize_abs (h : Hasher) (w : Width) (hi : h.Inv) : h.finalize w = digestAbs w h.abs := by
   cases h with
@@ -61,6 +69,14 @@ theorem finalize_abs (h : Hasher) (w : Width) (hi : h.Inv) : h.finalize w = dige
     cases w <;>
       simp only [finalize, finalize64, finalize128, finalize256, digestAbs, abs, Avx.abs,
         Avx.finalize64_refines s hi, Avx.finalize128_refines s hi, Avx.finalize256_refines s hi]
+  | neon s =>
+    cases w <;>
+      simp only [finalize, finalize64, finalize128, finalize256, digestAbs, abs, NeonB.abs,
+        NeonB.finalize64_refines s hi, NeonB.finalize128_refines s hi, NeonB.finalize256_refines s hi]
+  | wasm s =>
+    cases w <;>
+      simp only [finalize, finalize64, finalize128, finalize256, digestAbs, abs, WasmB.abs,
+        WasmB.finalize64_refines s hi, WasmB.finalize128_refines s hi, WasmB.finalize256_refines s hi]
 
 theorem finalize64_abs (h : Hasher) (hi : h.Inv) : h.finalize64 = P.out64 (P.finAbs 4 h.abs) := by
   have := finalize_abs h .w64 hi
@@ -79,6 +95,14 @@ theorem checkpoint_abs (h : Hasher) (hi : h.Inv) : h.checkpoint = P.encodeAbs h.
     have hle : s.buffer.idx ≤ s.buffer.buf.length := by have := hi; unfold Inv Pkt.Inv at this; omega
     simp only [checkpoint, Avx.checkpoint, abs, Avx.abs]
     rw [P.checkpoint_abs _ hle]; rfl
+  | neon s =>
+    have hle : s.buffer.idx ≤ s.buffer.buf.length := by have := hi; unfold Inv Pkt.Inv at this; omega
+    simp only [checkpoint, NeonB.checkpoint, abs, NeonB.abs]
+    rw [P.checkpoint_abs _ hle]; rfl
+  | wasm s =>
+    have hle : s.buffer.idx ≤ s.buffer.buf.length := by have := hi; unfold Inv Pkt.Inv at this; omega
+    simp only [checkpoint, WasmB.checkpoint, abs, WasmB.abs]
+    rw [P.checkpoint_abs _ hle]; rfl
 
 /-- restore from ANY 164-byte array: on every back end the restored hasher satisfies the invariant
 and has the same abstract state `decodeAbs c` -/
@@ -95,6 +119,14 @@ theorem fromCheckpoint_abs (b : Backend) (c : List (BitVec 8)) (hc : c.length = 
     refine ⟨?_, hp.2⟩
     simp only [abs, Avx.abs, Avx.fromCheckpoint, Avx.toPortable_fromPortable]
     exact hp.1
+  · subst hh
+    refine ⟨?_, hp.2⟩
+    simp only [abs, NeonB.abs, NeonB.fromCheckpoint, NeonB.toPortable_fromPortable]
+    exact hp.1
+  · subst hh
+    refine ⟨?_, hp.2⟩
+    simp only [abs, WasmB.abs, WasmB.fromCheckpoint, WasmB.toPortable_fromPortable]
+    exact hp.1
 
 theorem new_abs (b : Backend) (k : V4) (h : Hasher) (hh : new b k = some h) :
     h.abs = (Spec.reset k, []) ∧ h.Inv := by
@@ -102,6 +134,8 @@ theorem new_abs (b : Backend) (k : V4) (h : Hasher) (hh : new b k = some h) :
   · subst hh; exact ⟨P.new_abs k, P.new_inv k⟩
   · subst hh; exact Sse.new_abs k
   · subst hh; exact Avx.new_abs k
+  · subst hh; exact NeonB.new_abs k
+  · subst hh; exact WasmB.new_abs k
 
 theorem default_abs (b : Backend) (h : Hasher) (hh : default b = some h) :
     h.abs = (Spec.reset V4.zero, []) ∧ h.Inv := by
@@ -109,6 +143,8 @@ theorem default_abs (b : Backend) (h : Hasher) (hh : default b = some h) :
   · subst hh; exact ⟨P.new_abs _, P.new_inv _⟩
   · subst hh; exact Sse.new_abs _
   · subst hh; exact Avx.new_abs _
+  · subst hh; exact NeonB.new_abs _
+  · subst hh; exact WasmB.new_abs _
 
 end Hasher
 end HH
